@@ -246,8 +246,13 @@ SWEEP = ["concurrent/test_counter.cpp",
 
 # name anchors (validated by tools/rename_sweep.py; a vanished name is exit 2, see core.check_anchor_names)
 ANCHORS = {
+    '_cacheline_offset': ['^babylon::CompactEnumerableThreadLocal(<|$)'],
+    '_instance_id': ['^babylon::CompactEnumerableThreadLocal(<|$)'],
+    '_storage': ['^babylon::CompactEnumerableThreadLocal(<|$)', '^babylon::ConcurrentSampler(<|$)', '^babylon::ConcurrentSummer(<|$)', '^babylon::EnumerableThreadLocal(<|$)', '^babylon::GenericsConcurrentAdder(<|$)', '^babylon::internal::ConcurrentComparer(<|$)'],
+    '_version': ['^babylon::ConcurrentSampler(<|$)', '^babylon::internal::ConcurrentComparer(<|$)'],
     'allocate_id': ['^babylon::CompactEnumerableThreadLocal(<|$)'],
     'current_thread_id': ['^babylon::internal::ThreadIdImpl(<|$)'],
     'ensure': ['^babylon::ConcurrentVector(<|$)'],
     'storage': ['^babylon::CompactEnumerableThreadLocal(<|$)'],
+    'version': ['^babylon::ConcurrentSampler::Sample(<|$)', '^babylon::internal::ConcurrentComparer(<|$)'],
 }
